@@ -153,7 +153,7 @@ class C15(Check):
         "mtime comparisons are the only use of time, so states are canonicalised to the order relation of mtimes",
         "reference index/assembly come from the generator (mc/fastamodel.py), not from the code under test",
     ]
-    shard_timeout = {"quick": 900, "thorough": 7200}
+    shard_timeout = {"quick": 300, "thorough": 7200}
     workers = 16
 
     def bounds(self, tier):
